@@ -52,7 +52,9 @@ def subst_z(z, pairs):
         return z2
     names = None
     memo = c.__dict__.setdefault('_qr_subst_memo', {})
-    for (q, r, za, zb) in list(defs):
+    for d_ in list(defs):
+        q, r, za, zb = d_[:4]
+        signed = len(d_) > 4
         if names is None:
             names = {x.decl().name() for x in V._consts_of(z2).values()}
         if q.decl().name() not in names and r.decl().name() not in names:
@@ -69,9 +71,13 @@ def subst_z(z, pairs):
             else:
                 q2, r2 = c.fresh_int('q'), c.fresh_int('r')
                 c.assume_raw(za2 == zb2 * q2 + r2)
-                c.assume_raw(z3.And(r2 >= 0, r2 < zb2))
-                c.nonneg_ids.add(r2.get_id())
-                defs.append((q2, r2, za2, zb2))
+                if signed:
+                    c.assume_raw(z3.If(zb2 > 0, z3.And(r2 >= 0, r2 < zb2), z3.And(r2 <= 0, r2 > zb2)))
+                    defs.append((q2, r2, za2, zb2, 'signed'))
+                else:
+                    c.assume_raw(z3.And(r2 >= 0, r2 < zb2))
+                    c.nonneg_ids.add(r2.get_id())
+                    defs.append((q2, r2, za2, zb2))
                 c.divcache.setdefault(key, (q2, r2))
                 hit = (q2, r2)
             memo[(q.get_id(), key)] = hit
@@ -149,7 +155,12 @@ def check_closed(v, counter_before, allowed=()):
             zs = [zint(v.kind), zint(v.off)]
     allowed = set(allowed)
     for z in zs:
-        bad = [n for n in fresh_consts_in(z, counter_before) if n not in allowed]
+        qr = set()
+        for d_ in getattr(cur(), 'qr_defs', []):
+            q_, r_ = d_[0], d_[1]
+            qr.add(q_.decl().name()); qr.add(r_.decl().name())
+        # (Skolem quotient / remainder pairs are functions of their arguments and are re-instantiated under substitution: subst_z)
+        bad = [n for n in fresh_consts_in(z, counter_before) if n not in allowed and n not in qr]
         if bad:
             raise Unsupported(f'value stored by an independent-iterations loop is not a closed form (fresh symbols {bad[:3]})')
 
